@@ -36,7 +36,7 @@ CFG = dict(
          "commits root vc (the running fresh instance decides through proposal + prepares + commits of operators 1..3 delivered to "
          "runner.ProcessConsensus, vc=0: the runner's value check rejects from the quorum-completing commit on) | compact h | restart full reopen, heights 0..12 "
          "drawn around the controller height (a quarter of the cases stays at heights 0/1), rounds 1..3, signer sets = the five quorums of 4 "
-         "operators (4%: sub-quorum), 5% invalid signatures, 3% a second value at the same height, 40% of decided messages through "
+         "operators (9%: below quorum — one or two signers, taking the ordinary commit path; single commits can be accepted by an instance that decided through the commit exchange), 5% invalid signatures, 3% a second value at the same height, 40% of decided messages through "
          "runner.ProcessConsensus, 15-20% of restarts close and reopen the Badger DB; every op is applied to the real objects and to the "
          "Lean model; distinct+non-trivial = (op kind, outcome, node mode, relation of the height to the controller height, instance in "
          "memory / in history, signer count, round) classes computed by the harness",
